@@ -22,6 +22,14 @@ ASSERTS = [
     ("assert_ge_ss", "{i}.assert_ge({i})"), ("assert_ge_sc", "{i}.assert_ge({K})"),
     ("assert_eq_ss", "{i}.assert_eq({i})"), ("assert_eq_sc", "{i}.assert_eq({K})"),
     ("assert_ne_ss", "{i}.assert_ne({i})"), ("assert_ne_sc", "{i}.assert_ne({K})"),
+    ("assert_lt_sf", "{i}.assert_lt({f})"), ("assert_ge_sf", "{i}.assert_ge({f})"), ("assert_eq_sf", "{i}.assert_eq({f})"),
+    ("assert_le_sc_float", "{i}.assert_le({c})"), ("assert_ne_sf", "{i}.assert_ne({f})"), ("assert_gt_sf", "{i}.assert_gt({f})"),
+    # the same object on both sides
+    ("assert_lt_same", "(lambda t: t.assert_lt(t))({i})"), ("assert_gt_same", "(lambda t: t.assert_gt(t))({i})"),
+    ("assert_ne_same", "(lambda t: t.assert_ne(t))({i})"), ("assert_le_same", "(lambda t: t.assert_le(t))({i})"),
+    ("assert_eq_same", "(lambda t: t.assert_eq(t))({i})"), ("bassert_ne_same", "(lambda t: t.assert_ne(t))({b})"),
+    ("fassert_gt_same", "(lambda t: t.assert_gt(t))({f})"), ("fassert_le_same", "(lambda t: t.assert_le(t))({f})"),
+    ("assert_range_same", "(lambda t: t.assert_range(t, t))({i})"),
     ("assert_zero", "{i}.assert_zero()"), ("assert_zero_diff", "({i} - {i}).assert_zero()"),
     ("assert_nonzero", "{i}.assert_nonzero()"),
     ("assert_positive", "{i}.assert_positive()"), ("assert_positive_w", "{i}.assert_positive({w})"),
